@@ -17,7 +17,7 @@ from . import graphcommon as gc
 
 MODULE = "NadaVerif.Props.C08"
 TRANSLATORS = None
-THEOREMS = ["NadaVerif.C08.helpers_current_after_history"] + [f"NadaVerif.C08.{n}" for n in (
+THEOREMS = ["NadaVerif.C08.helpers_current_after_history", "NadaVerif.C08.helpers_reused_when_unchanged"] + [f"NadaVerif.C08.{n}" for n in (
     "compile_mono", "lookup_append", "fuel_append", "earlier_history_irrelevant", "later_traces_irrelevant",
     "only_reachable_emitted", "related_after", "trace_shift_equivariant", "after_any_history", "shifted_lookup",
     "compile_after_history", "compile_after_history_fails", "after_history_fails_alike", "outputs_follow_registers")] + [
